@@ -1,8 +1,8 @@
 (* C20/Props.v — the property theorems for C20, and nothing else.
    GenTable.v (imported through ProofsDerive) is regenerated from the real lowering + emitter on
    every run, so the derive theorems are re-proved on the current source. *)
-From Verif Require Import Base.I64 C20.Model C20.GenTable C20.ProofsDerive.
-From Coq Require Import ZArith List Bool.
+From Verif Require Import Base.I64 C20.Model C20.GenTable C20.ProofsDerive C20.ProofsValue C20.ProofsJson C20.ProofsOrd.
+From Coq Require Import ZArith List Bool Lia.
 Import ListNotations.
 Open Scope Z_scope.
 
@@ -34,14 +34,125 @@ Proof.
 Qed.
 Print Assumptions C20_derive_model_closed.
 
-(* D3  tie: the regenerated table equals the hand model on every subset, for both kinds *)
-Theorem C20_derive_table_is_model :
-  gen_table_model = map (fun req => map dcode (emitted req)) (powerset decorators) /\
-  gen_table_class = map (fun req => map dcode (emitted req)) (powerset decorators).
-Proof. exact table_is_model. Qed.
+(* D3  tie: on every decorator subset, for both kinds, the regenerated row and the hand model
+       [emitted] contain the same derive names *)
+Theorem C20_derive_table_is_model : forall (f : derive -> bool) (tbl : list (list Z)),
+  tbl = gen_table_model \/ tbl = gen_table_class ->
+  let req := filter f decorators in
+  exists row e, In (req, row) (combine (powerset decorators) tbl) /\ row_derives row = Some e /\
+    forall d, has e d = has (emitted req) d.
+Proof.
+  intros f tbl [-> | ->]; [exact (rows_match_rows _ (proj1 table_is_model) f) | exact (rows_match_rows _ (proj2 table_is_model) f)].
+Qed.
 Print Assumptions C20_derive_table_is_model.
 
+(* J1  json round trip: for every declared type without floats (typing premise) whose field types
+       are outside the known class (an Option directly inside an Option), and every value of it,
+       T.from_json(json_stringify(v)) is Ok(v) — text level, through the printer and the reader *)
+Theorem C20_json_roundtrip : forall t v,
+  wf_ty t -> ~ Known_C20_nested_option t -> has_type t v -> from_json t (to_json v) = JOk v.
+Proof.
+  intros t v Hwf Hk Hty. unfold from_json, to_json.
+  rewrite (parse_json_print (encode v) (wf_encode t v Hwf Hty)).
+  assert (Hno : nested_opt t = false) by (unfold Known_C20_nested_option in Hk; destruct (nested_opt t); congruence).
+  now rewrite (decode_encode t v Hwf Hno Hty).
+Qed.
+Print Assumptions C20_json_roundtrip.
+
+(* J1'  the known class is not empty and the property fails in it: Some(None) comes back as None *)
+Theorem C20_json_roundtrip_refuted : exists t v w,
+  wf_ty t /\ has_type t v /\ Known_C20_nested_option t /\ from_json t (to_json v) = JOk w /\ w <> v.
+Proof.
+  destruct nested_option_refuted as [Hwf [Hty [Hk Hd]]].
+  exists (TStruct [([111], TOpt (TOpt TInt)); ([110], TInt)]),
+         (VStruct [([111], VSome VNone); ([110], VInt 1)]),
+         (VStruct [([111], VNone); ([110], VInt 1)]).
+  split; [exact Hwf|]. split; [exact Hty|]. split; [exact Hk|]. split; [vm_compute; reflexivity|discriminate].
+Qed.
+Print Assumptions C20_json_roundtrip_refuted.
+
+(* J2  the reader's fuel (computed from the input length) always suffices: no result of from_json
+       is an artefact of running out of fuel *)
+Theorem C20_json_fuel_suffices : forall t s, from_json t s <> JOutOfFuel.
+Proof.
+  intros t s. unfold from_json. pose proof (parse_json_never_out_of_fuel s) as H.
+  destruct (parse_json s); [destruct (decode t a); discriminate|discriminate|congruence].
+Qed.
+Print Assumptions C20_json_fuel_suffices.
+
+(* J3  the JSON text of a model/class value is an object whose keys are exactly the declared field
+       names, in declaration order *)
+Theorem C20_json_field_names : forall fs l,
+  wf_ty (TStruct fs) -> has_type (TStruct fs) (VStruct l) ->
+  exists ms, parse_json (to_json (VStruct l)) = JOk (JObj ms) /\ map fst ms = map fst fs.
+Proof.
+  intros fs l Hwf Hty. destruct (encode_field_names fs l Hty) as [ms [He Hn]].
+  exists ms. split; [|exact Hn]. unfold to_json. rewrite <- He.
+  exact (parse_json_print _ (wf_encode _ _ Hwf Hty)).
+Qed.
+Print Assumptions C20_json_field_names.
+
+(* E1  == is structural: on types without dict/float it is Leibniz equality; on any struct it is the
+       conjunction of == over the fields in order *)
+Theorem C20_eq_structural :
+  (forall t a b, ord_ty t = true -> has_type t a -> (veq a b = true <-> a = b)) /\
+  (forall x y, veq (VStruct x) (VStruct y) = true <->
+               Forall2 (fun p q => fst p = fst q /\ veq (snd p) (snd q) = true) x y).
+Proof.
+  split; [|exact veq_fieldwise].
+  intros t a b Ho Ha. exact (veq_eq a (ord_ty_no_dict t a Ho Ha) b).
+Qed.
+Print Assumptions C20_eq_structural.
+
+(* O1  derived ordering is a total order on the values of a type (no dict, no float): compares equal
+       only equal values, reflexive, antisymmetric, transitive; and it is lexicographic in declaration
+       order: the first field that differs decides *)
+Theorem C20_ord_lexicographic :
+  (forall t, ord_ty t = true ->
+     (forall a b, has_type t a -> has_type t b -> vcmp a b = Eq -> a = b) /\
+     (forall a, has_type t a -> vcmp a a = Eq) /\
+     (forall a b, has_type t a -> has_type t b -> vcmp b a = CompOpp (vcmp a b)) /\
+     (forall a b c, has_type t a -> has_type t b -> has_type t c -> vcmp a b = Lt -> vcmp b c = Lt -> vcmp a c = Lt)) /\
+  (forall pre pre' n n' a b post post',
+     Forall2 (fun p q => vcmp (snd p) (snd q) = Eq) pre pre' -> vcmp a b <> Eq ->
+     vcmp (VStruct (pre ++ (n, a) :: post)) (VStruct (pre' ++ (n', b) :: post')) = vcmp a b).
+Proof.
+  split; [|exact first_difference].
+  intros t Ho. destruct (tot_value t Ho) as [H1 H2 H3 H4]. repeat split; assumption.
+Qed.
+Print Assumptions C20_ord_lexicographic.
+
+(* H1  equal values feed the Hasher the same sequence of calls (so they hash equally under any hasher) *)
+Theorem C20_hash_respects_eq : forall t a b,
+  ord_ty t = true -> has_type t a -> veq a b = true -> hash_stream a = hash_stream b.
+Proof. intros t a b Ho Ha. exact (hash_respects_eq a b (ord_ty_no_dict t a Ho Ha)). Qed.
+Print Assumptions C20_hash_respects_eq.
+
+(* C1  a clone is equal to the original and independent of it (store model: writing either location
+       leaves the other unchanged) *)
+Theorem C20_clone_equal_independent : forall s i v,
+  nth_error s i = Some v ->
+  exists s' c, store_clone s i = Some (s', c) /\ c <> i /\
+    nth_error s' c = Some v /\ nth_error s' i = Some v /\
+    (forall w, nth_error (store_set s' c w) i = Some v /\ nth_error (store_set s' c w) c = Some w) /\
+    (forall w, nth_error (store_set s' i w) c = Some v /\ nth_error (store_set s' i w) i = Some w).
+Proof. exact clone_equal_independent. Qed.
+Print Assumptions C20_clone_equal_independent.
+
 (* the hypotheses above are satisfiable by non-trivial values *)
+Example C20_nonvacuous_json :
+  let t := TStruct [([120], TInt); ([115], TOpt TStr); ([108], TList (TDict TBool))] in
+  let v := VStruct [([120], VInt (-5)); ([115], VSome (VStr [34; 233; 128512])); ([108], VList [VDict [([107], VBool true)]])] in
+  wf_ty t /\ ~ Known_C20_nested_option t /\ has_type t v /\
+  to_json v = [123;34;120;34;58;45;53;44;34;115;34;58;34;92;34;233;128512;34;44;34;108;34;58;91;123;34;107;34;58;116;114;117;101;125;93;125].
+Proof.
+  cbn zeta. split; [|split; [|split]].
+  - cbn. split; [repeat constructor; cbn; intuition discriminate|repeat split; repeat constructor; reflexivity].
+  - intros H. vm_compute in H. discriminate.
+  - cbn. repeat split; repeat constructor; try reflexivity; cbn; try (intuition discriminate); unfold in_i64, MIN64, MAX64; lia.
+  - vm_compute. reflexivity.
+Qed.
+
 Example C20_nonvacuous :
   ~ Known_C20_partialord_without_partialeq (filter (fun d => derive_eqb d DOrd || derive_eqb d DHash) decorators) /\
   emitted [DOrd; DHash] = [DOrd; DHash; DPartialOrd; DEq; DPartialEq; DDebug; DClone; DFieldInfo; DIncanClass] /\
